@@ -174,11 +174,27 @@ Proof.
   cbn in H. discriminate.
 Qed.
 
-Lemma apply_conds_pairs cs r :
+Lemma set_col_del c v r : col_eqb c CDel = false -> r_del (set_col c v r) = r_del r.
+Proof. destruct r, c, v; cbn; intros H; try reflexivity; discriminate. Qed.
+Lemma set_pairs_del ps r : no_del ps = true -> r_del (set_pairs ps r) = r_del r.
+Proof.
+  unfold set_pairs, no_del. revert r; induction ps as [|p ps IH]; intros r H; cbn in *; [reflexivity|].
+  apply andb_prop in H. destruct H as [H1 H2]. rewrite (IH _ H2). apply set_col_del. now apply negb_true_iff.
+Qed.
+Lemma set_del_null r : r_del r = None -> set_col CDel VNull r = r.
+Proof. destruct r; cbn. now intros ->. Qed.
+
+(* on a record without deleted_at and conditions that do not name it, the Unscoped reading (no
+   deleted_at = NULL equality) builds the same record *)
+Lemma apply_conds_pairs cs r : no_del (flat_map cond_pairs cs) = true -> r_del r = None ->
   apply_conds cs r = set_col CDel VNull (set_pairs (flat_map cond_pairs cs) r).
 Proof.
-  unfold apply_conds. f_equal. revert r. induction cs as [|c cs IH]; intros r; [reflexivity|].
-  cbn [fold_left flat_map]. rewrite IH. unfold set_pairs. now rewrite fold_left_app.
+  intros Nd Hr. unfold apply_conds.
+  assert (E : fold_left (fun r c => set_pairs (cond_pairs c) r) cs r = set_pairs (flat_map cond_pairs cs) r).
+  { clear. revert r. induction cs as [|c cs IH]; intros r; [reflexivity|].
+    cbn [fold_left flat_map]. rewrite IH. unfold set_pairs. now rewrite fold_left_app. }
+  rewrite E. destruct (unscoped cs); [|reflexivity].
+  symmetry. apply set_del_null. now rewrite set_pairs_del.
 Qed.
 
 (* ---- "the first match with Assign applied" ------------------------------------------------------- *)
@@ -208,7 +224,7 @@ Lemma built_ok_built cs attrs assigns :
   built_ok cs attrs assigns [] (built cs attrs assigns) = true.
 Proof.
   intros Ka Ks Tc Ta Ts Nd. unfold built_ok, built. apply forallb_forall. intros c _.
-  rewrite (assign_args_pairs _ _ Ks), (assign_args_pairs _ _ Ka), apply_conds_pairs.
+  rewrite (assign_args_pairs _ _ Ks), (assign_args_pairs _ _ Ka), (apply_conds_pairs cs zero_rec Nd eq_refl).
   set (r0 := set_col CDel VNull (set_pairs (flat_map cond_pairs cs) zero_rec)).
   set (r1 := set_pairs (flat_map arg_pairs attrs) r0).
   pose proof (set_pairs_get _ Ts c r1) as G2.
@@ -339,13 +355,13 @@ Proof. destruct r, c; cbn; intros [H|H]; try discriminate; reflexivity. Qed.
 Lemma with_id_get c k r : data_key c = true \/ c = CDel -> get_col c (with_id k r) = get_col c r.
 Proof. destruct r, c; cbn; intros [H|H]; try discriminate; reflexivity. Qed.
 
-Theorem foc_meets_spec t now ch ic : wf t ->
+Theorem foc_meets_spec t now ch ic : wf t -> unscoped ic = false ->
   kv_alone (ch_attrs ch) = true -> kv_alone (ch_assigns ch) = true ->
   conds_typed (ch_conds ch ++ ic) = true -> args_typed (ch_attrs ch) = true -> args_typed (ch_assigns ch) = true ->
   conds_dom (ch_conds ch ++ ic) = true -> args_data (ch_attrs ch) = true -> args_data (ch_assigns ch) = true ->
   spec_step t now ch (FFoc ic) (obs_of_result (step_repo t now ch (FFoc ic))) = true.
 Proof.
-  intros Hwf Ka Ks Tc Ta Ts Dc Da Ds. rewrite foc_reading_repo. cbn [spec_step]. unfold spec_foc.
+  intros Hwf Hu Ka Ks Tc Ta Ts Dc Da Ds. rewrite foc_reading_repo. cbn [spec_step]. unfold spec_foc.
   set (cs := ch_conds ch ++ ic) in *. set (attrs := ch_attrs ch) in *. set (assigns := ch_assigns ch) in *.
   destruct (first_match t cs) as [r|] eqn:M.
   - (* found *)
@@ -355,7 +371,7 @@ Proof.
       rewrite rec_eqb_refl, tbl_eqb_refl. reflexivity.
     + assert (Ne : a :: l <> []) by discriminate.
       pose proof (args_data_names_key _ Ks Ds) as Nk.
-      destruct (foc_found_assign t now (ch_conds ch) ic attrs (a :: l) r Hwf M Ne Nk) as (R & E & RA & L & O & W).
+      destruct (foc_found_assign t now (ch_conds ch) ic attrs (a :: l) r Hwf Hu M Ne Nk) as (R & E & RA & L & O & W).
       assert (Wr : res_writes (ref_foc t now (ch_conds ch) cs attrs (a :: l)) = 1).
       { unfold ref_foc. fold cs. rewrite M. reflexivity. }
       unfold obs_of_result. cbn [o_writes o_err o_ret o_tbl o_ra nonempty]. fold cs in R, E, RA, L, O, W.
@@ -427,5 +443,5 @@ Proof.
   - cbn [in_domain] in D. repeat (apply andb_prop in D; destruct D as [D ?]).
     apply init_meets_spec; try assumption. now apply conds_dom_no_del.
   - cbn [in_domain] in D. repeat (apply andb_prop in D; destruct D as [D ?]).
-    apply foc_meets_spec; assumption.
+    apply foc_meets_spec; try assumption. now apply negb_true_iff.
 Qed.
